@@ -1,7 +1,6 @@
 package interp
 
 import (
-	"fmt"
 	"go/types"
 	"reflect"
 
@@ -34,41 +33,10 @@ func (i *interpreter) selectStmt(fr *frame, instr *ssa.Select) value {
 
 func (i *interpreter) goStmt(fr *frame, instr *ssa.Go, fn value, args []value) {
 	if i.trace != nil {
-		i.trace.spawn(i, fr, fn, args)
+		i.trace.spawn(i, fr, nil, fn, args)
 		return
 	}
 	panic(unsupported{"go statement outside trace-extraction mode"})
-}
-
-// ---- trace extraction (schedule BMC back end) ----
-
-type traceState struct {
-	events  []TraceEvent
-	pending []pendingThread
-	thread  int
-}
-
-type pendingThread struct {
-	fn   value
-	args []value
-	id   int
-}
-
-type TraceEvent struct {
-	Thread int
-	Kind   string
-	Obj    string
-	Data   string
-}
-
-func (t *traceState) syncEvent(i *interpreter, name string, a []value) {
-	t.events = append(t.events, TraceEvent{Thread: t.thread, Kind: name, Obj: fmt.Sprintf("%p", a[0])})
-}
-
-func (t *traceState) spawn(i *interpreter, fr *frame, fn value, args []value) {
-	id := len(t.pending) + 1
-	t.pending = append(t.pending, pendingThread{fn, args, id})
-	t.events = append(t.events, TraceEvent{Thread: t.thread, Kind: "spawn", Data: fmt.Sprint(id)})
 }
 
 // ---- pure-callee summarisation ----
